@@ -28,6 +28,12 @@ func replay(sub string, raw json.RawMessage) ([]h.Failure, error) {
 		return runScopeOps(ops), nil
 	case "program":
 		return replayProgram(raw)
+	case "listed":
+		var c listedCase
+		if err := json.Unmarshal(raw, &c); err != nil {
+			return nil, err
+		}
+		return checkListed(c), nil
 	}
 	return nil, fmt.Errorf("unknown sub-check %q", sub)
 }
